@@ -101,7 +101,7 @@ seq_t dtw_warping_paths{{ suffix }}{{ suffix2 }}(seq_t *wps,
     }
     // First column:
     wpsi = p.width;
-    for (ri=0; ri<settings->psi_1b; ri++) {
+    for (ri=0; ri<settings->psi_1b && ri<l1; ri++) {
         wps[wpsi] = 0;
         wpsi += p.width;
     }
